@@ -45,8 +45,9 @@ CHECKS['C12'] = dict(cat='other', engine='symnp + z3 table encoding',
          'Redirect table: read from the current source and encoded in z3; termination of the real lookup loop is the '
          'unsatisfiability of "still a key after len(table)+1 steps"; importability of in-package targets, capture of live '
          'glue.core classes and registry consistency (consecutive versions, loader for every saver version) are finite scans '
-         'of the current tables (auxiliary, concrete). Old protocol versions of Data/DataCollection are re-loaded with symbolic '
-         'payload once the C02 machinery is present.', ref='5/C12',
+         'of the current tables (auxiliary, concrete). Every registered protocol version of Data (1-5) and DataCollection (1-4) is written with that '
+         'version\'s saver and re-loaded with the current loaders over a symbolic payload (links, two-dataset links, key joins, '
+         'groups, styles as far as the version can represent them) and compared by the C02 obligations.', ref='5/C12',
     note='versions bounded to [-2, V], 2 keys, K writes; capture check judged for glue.core.* keys only (viewer/dialog classes '
          'redirected to glue_qt are reported in evidence, not judged)')
 
@@ -202,6 +203,19 @@ CHECKS['C03'] = dict(cat='other', engine='symnp',
          'no registered link, externally derivable attribute or pixel-alignment entry refers to a removed object.', ref='5/C03',
     note=NOTE_SYM + '; link functions are fixed pairwise independent affine maps; 3 datasets (the property mentions ~5); key joins '
          'are C11, coordinate links C15')
+
+CHECKS['C02'] = dict(cat='other', engine='symnp',
+    technique='real serializer/unserializer run on sessions with symbolic payload (S-npy stub) + SMT equivalence of masks and values before/after',
+    text='One session per selection recipe (every SubsetState and Roi class of glue.core found by introspection, ~35 recipes), per '
+         'link kind (LinkSame, function links, two-input, LinkTwoWay, MultiLink, JoinLink, join_on_key, derived-source links) and '
+         'per component / coordinate kind (units, categorical with custom order, datetime, derived chains, identity / affine 1-3-d '
+         'coordinates, none) is written with the real GlueSerializer (real json) and read back; either saving fails loudly or every '
+         'dataset has the same labels, component order, values (as terms over the symbolic payload), reachable linked attributes, '
+         'key joins, subset masks on every dataset (or the same incompatibility), styles (alpha 0 included) and metadata; a second '
+         'round trip gives the same again.', ref='5/C02',
+    note=NOTE_SYM + '; structure and selection parameters are concrete (sampled asymmetric values), the payload is symbolic; '
+         'include_data=False, Mpl ROIs, viewers and FloodFillSubsetState are outside the claim; recorded finding '
+         'C02/selection-without-saver excluded by its witness class')
 
 NOT_YET = {}
 
